@@ -218,8 +218,11 @@ GOENV = {"GOTOOLCHAIN": "local", "GOFLAGS": "-mod=mod", "GOPROXY": "off"}
 GOBIN = "go1.26.8"
 
 
-def make_overlay(ctx, pkgdirs):
-    """Maps /verif/harness/<dir>/* into /repo/internal/<dir>/ (kit -> internal/verifkit)."""
+def make_overlay(ctx, pkgdirs, prefixes=None):
+    """Maps /verif/harness/<dir>/* into /repo/internal/<dir>/ (kit -> internal/verifkit). Only files whose
+    name starts with the running property's id (c02_...) or with "shared" are taken from package
+    directories, so that one property's harness never depends on another's compiling."""
+    prefixes = tuple(prefixes or (ctx.pid.lower(), "shared"))
     repl = {}
     dirs = ["kit"] + [p for p in pkgdirs if p != "kit"]
     for d in dirs:
@@ -228,7 +231,7 @@ def make_overlay(ctx, pkgdirs):
             continue
         dst = os.path.join(REPO, "internal", "verifkit" if d == "kit" else d)
         for f in sorted(os.listdir(src)):
-            if f.endswith(".go"):
+            if f.endswith(".go") and (d == "kit" or f.startswith(prefixes)):
                 name = f if d == "kit" else "zzverif_" + f
                 repl[os.path.join(dst, name)] = os.path.join(src, f)
     path = os.path.join(ctx.work, "overlay.json")
@@ -237,14 +240,15 @@ def make_overlay(ctx, pkgdirs):
     return path
 
 
-def run_go(ctx, pkg, run, env=None, timeout=900, harness_dirs=None, race=False, tag=None, extra_args=None):
+def run_go(ctx, pkg, run, env=None, timeout=900, harness_dirs=None, race=False, tag=None, extra_args=None,
+           prefixes=None):
     """go test -tags verif -overlay ... -run <run> ./internal/<pkg>/ ; returns the harness's result.json."""
     tag = tag or run
     out = os.path.join(ctx.work, "go_" + re.sub(r"\W", "_", tag))
     shutil.rmtree(out, ignore_errors=True)
     os.makedirs(out)
     hd = harness_dirs or [pkg]
-    overlay = make_overlay(ctx, hd)
+    overlay = make_overlay(ctx, hd, prefixes)
     e = dict(os.environ)
     e.update(GOENV)
     e.pop("GOSUMDB", None)
